@@ -584,6 +584,26 @@ def run_dist(case, ctx, teneva):
         paths2 = idx[rng.integers(0, N, size=m2)]
         status.append(audit(ctx, 'sample', teneva.sample, Ypos, RS, paths2, 0.,
             s_int, {'unsert': 0.}, f'm = {m2} random paths, unsert=0'))
+        # history: one list object, sampled, then one of its cores edited in
+        # place, then sampled again (marginals memoised per object identity
+        # would be stale).  Done on a private copy so that the rest of the
+        # case still sees the original tensor.
+        if d >= 2 and all(s_ == 'ok' for s_ in status):
+            Yh = [G.copy() for G in Ypos]
+            k_ed = int(rng.integers(1, d))
+            pat = 1. + 0.5 * (np.arange(Yh[k_ed].size).reshape(
+                Yh[k_ed].shape) % 2)
+            Ytest = [G.copy() for G in Yh]
+            np.multiply(Ytest[k_ed], pat, out=Ytest[k_ed])
+            RSh = RefSample(Ytest)
+            if RSh.nonneg and RSh.defined:
+                st0 = audit(ctx, 'sample', teneva.sample, Yh, RS, paths2, 0.,
+                    s_int, {'unsert': 0.}, 'history copy, first contact')
+                np.multiply(Yh[k_ed], pat, out=Yh[k_ed])
+                status.append(audit(ctx, 'sample', teneva.sample, Yh, RSh,
+                    paths2, 0., s_int, {'unsert': 0.}, f'after an in-place '
+                    f'edit of core {k_ed} of the same list object'))
+                ctx.event('sample-after-inplace-edit')
         if np.any(RS.null_first):
             # real draws with the default unsert that do enter the null slice
             # (probability 1 - exp(-30)): an index array must come back
